@@ -1225,3 +1225,209 @@ Proof.
   split; [intros r Hr; apply ex_wf_roas; eapply roas_held_incl; exact Hr|].
   split; [reflexivity|]. split; [discriminate|]. repeat split.
 Qed.
+
+
+(** * The strongest restriction of the strong reading that holds
+
+    If every held ROA has an explicit maximum length (as every ROA configured through a krill CA has,
+    src/server/ca/certauth.rs:2222) and no ROA that validates the announcement is reported "too permissive",
+    then a ROA validating the announcement is in the [keep] list and survives the suggested updates. *)
+Definition explicit_max (roas : list croa) : Prop := forall r, In r roas -> pl_max (r_pl r) <> None.
+
+Lemma map_opt_In_rev {A B} (f : A -> option B) l : forall ys x,
+  map_opt f l = Some ys -> In x l -> exists y, In y ys /\ f x = Some y.
+Proof.
+  induction l as [|x0 l IH]; intros ys x H Hx; [destruct Hx|]. cbn [map_opt] in H.
+  destruct (f x0) as [y0|] eqn:E0; [|discriminate]. destruct (map_opt f l) as [ys0|] eqn:El; [|discriminate].
+  inversion H; subst. destruct Hx as [<-|Hx].
+  - exists y0. split; [left; reflexivity | assumption].
+  - destruct (IH ys0 x eq_refl Hx) as (y & Hy & E). exists y. split; [right; assumption | assumption].
+Qed.
+
+(** Every held ROA has an entry produced by [categorise_roa]. *)
+Lemma analyse_held_entry chk roas held limit store es r :
+  analyse chk roas held limit (Some store) = Some es -> In r (roas_held roas held limit) ->
+  let f := p_fam (r_pfx r) in
+  let fr := filter (is_fam f) (roas_held roas held limit) in
+  exists e, In e es /\ categorise_roa chk r (validated_in store (fam_scope f (scope_of held limit)) fr) fr = Some e.
+Proof.
+  intros H Hr f fr.
+  pose proof (analyse_inv _ _ _ _ _ _ H) as X. cbv zeta in X. destruct X as (c4 & c6 & H4 & H6 & ->).
+  assert (Hfr : In r fr) by (apply filter_In; split; [assumption | apply fam_eqb_refl]).
+  destruct (p_fam (r_pfx r)) eqn:Ef; subst f fr.
+  - destruct (map_opt_In_rev _ _ _ _ H4 Hfr) as (e & He & E). exists e. split; [|exact E].
+    rewrite !in_app_iff. auto.
+  - destruct (map_opt_In_rev _ _ _ _ H6 Hfr) as (e & He & E). exists e. split; [|exact E].
+    rewrite !in_app_iff. auto.
+Qed.
+
+(** The state assigned by [categorise_roa] depends on the ROA only through its payload. *)
+Lemma categorise_state_payload chk r r' vs all e e' :
+  r_pl r = r_pl r' -> categorise_roa chk r vs all = Some e -> categorise_roa chk r' vs all = Some e' ->
+  e_state e = e_state e'.
+Proof.
+  intros Ep. unfold categorise_roa, cat_excess, cat_authorizes, cat_disallows, cat_covered, cat_others_including,
+    cat_others_covering, r_pfx, r_asn, r_max. rewrite <- Ep.
+  destruct (if 0 <? _ then _ else Some false) as [ex|]; [|discriminate].
+  intros H H'. inversion H; inversion H'; subst e e'; clear H H'.
+  destruct (pl_asn (r_pl r) =? 0).
+  - destruct (map r_pl _); reflexivity.
+  - destruct (filter _ (map r_pl _)); [|reflexivity].
+    destruct (map v_ann _), (map v_ann _), ex; reflexivity.
+Qed.
+
+Lemma fold_max_ge (l : list croa) r : In r l -> r_max r <= fold_right (fun x m => N.max (r_max x) m) 0 l.
+Proof.
+  induction l as [|x l IH]; intros H; [destruct H|]. cbn [fold_right]. destruct H as [<-|H]; [lia|]. specialize (IH H). lia.
+Qed.
+
+Theorem suggest_preserves_validity_restricted chk roas held limit store s :
+  suggest chk roas held limit (Some store) = Some s ->
+  wf_scope (scope_of held limit) -> wf_store store -> wf_roas roas ->
+  let hr := roas_held roas held limit in
+  explicit_max hr ->
+  forall a, In a store -> in_scope (scope_of held limit) a ->
+    rov (map vrp_of hr) (route_of a) = Valid ->
+    (forall r, In r (map fst (s_too_permissive s)) -> matched (vrp_of r) (route_of a) = false) ->
+    (exists r, In r (s_keep s) /\ matched (vrp_of r) (route_of a) = true)
+    /\ rov (map vrp_of_payload (config_after hr s)) (route_of a) = Valid.
+Proof.
+  intros Hsug Hsc Hst Hwf hr Hex a Ha Hin Hval Htp.
+  destruct (suggest_inv _ _ _ _ _ _ Hsug) as (es & Han & Hs).
+  unfold suggest_of_entries in Hs. destruct (forallb kind_consistent es); [|discriminate].
+  inversion Hs; subst s; clear Hs.
+  assert (Hwa : wf_prefix (a_pfx a)) by (apply Hst; assumption).
+  assert (Hwh : wf_roas hr) by (intros x Hx; apply Hwf; eapply roas_held_incl; exact Hx).
+  set (Mx := fold_right (fun x m => N.max (r_max x) m) 0 hr).
+  (* 1. a matching ROA that is not reported redundant *)
+  assert (Chain : forall n r, N.to_nat (p_len (r_pfx r) + (Mx - r_max r)) = n -> In r hr ->
+            matched (vrp_of r) (route_of a) = true ->
+            exists r' e, In r' hr /\ matched (vrp_of r') (route_of a) = true /\ In e es /\ e_subj e = SRoa r'
+                         /\ e_state e <> RoaRedundant
+                         /\ categorise_roa chk r' (validated_in store (fam_scope (p_fam (r_pfx r')) (scope_of held limit))
+                                                                (filter (is_fam (p_fam (r_pfx r'))) hr))
+                                           (filter (is_fam (p_fam (r_pfx r'))) hr) = Some e).
+  { induction n as [n IHn] using lt_wf_ind. intros r Hn Hr Hm.
+    pose proof (analyse_held_entry _ _ _ _ _ _ _ Han Hr) as X. cbv zeta in X. destruct X as (e & He & E).
+    fold hr in E.
+    pose proof (categorise_spec _ _ _ _ _ E) as (Esub & _ & _ & _ & _ & Hred & _).
+    destruct (e_state e) eqn:Est;
+      try (exists r, e; repeat split; auto; rewrite Est; discriminate).
+    (* redundant: follow the including ROA *)
+    specialize (Hred eq_refl).
+    assert (Hrf : In r (filter (is_fam (p_fam (r_pfx r))) hr)) by (apply filter_In; split; [assumption | apply fam_eqb_refl]).
+    destruct (cat_others_including r (filter (is_fam (p_fam (r_pfx r))) hr)) as [|pl pls] eqn:Eo; [contradiction|].
+    assert (Hpl : In pl (cat_others_including r (filter (is_fam (p_fam (r_pfx r))) hr))) by (rewrite Eo; left; reflexivity).
+    unfold cat_others_including, cat_others_covering in Hpl.
+    apply filter_In in Hpl. destruct Hpl as [Hpl Hinc]. apply in_map_iff in Hpl. destruct Hpl as (o & <- & Ho).
+    apply filter_In in Ho. destruct Ho as [Ho Hcov]. apply andb_true_iff in Hcov. destruct Hcov as [Hcov Hneq].
+    destruct (is_fam_In _ _ _ Ho) as [Hoh _].
+    rewrite !andb_true_iff, N.eqb_eq, !N.leb_le in Hinc. destruct Hinc as [[Ea Hl] Hmx].
+    fold (r_asn o) in Ea. fold (r_pfx o) in Hl. fold (r_max o) in Hmx.
+    assert (Hmo : matched (vrp_of o) (route_of a) = true).
+    { pose proof Hcov as Hcov'. rewrite covers_covered_pfx in Hcov' by (apply Hwh; assumption).
+      unfold matched, covered, vrp_of, route_of in *. cbn [vrp_pfx vrp_max vrp_asn rt_pfx rt_asn] in *.
+      rewrite !andb_true_iff, negb_true_iff, N.leb_le, N.eqb_eq, N.eqb_neq in *.
+      destruct Hm as [[[Hc Hlen] Hasn] Hz].
+      repeat split; [eapply covered_pfx_trans; eassumption | lia | congruence | congruence]. }
+    (* strictly better *)
+    assert (Hlt : (N.to_nat (p_len (r_pfx o) + (Mx - r_max o)) < n)%nat).
+    { pose proof (fold_max_ge hr o Hoh) as Bo. pose proof (fold_max_ge hr r Hr) as Br. fold Mx in Bo, Br.
+      destruct (N.eq_dec (p_len (r_pfx o)) (p_len (r_pfx r))) as [El|]; [|lia].
+      destruct (N.eq_dec (r_max o) (r_max r)) as [Em|]; [|lia]. exfalso.
+      (* same length, covering: same prefix; same origin; explicit maximum lengths: same payload *)
+      assert (Hcr : covers (r_pfx r) (r_pfx o) = true).
+      { pose proof (covers_fam _ _ Hcov) as Hf'.
+        rewrite covers_covered_pfx in * by (apply Hwh; assumption).
+        unfold covered_pfx, first_bits in *. rewrite !andb_true_iff, !fam_eqb_eq, !N.leb_le, !N.eqb_eq in *.
+        destruct Hcov as [[_ _] Heq]. repeat split; [congruence | lia |]. rewrite <- Hf', <- El. congruence. }
+      assert (Epf : r_pfx o = r_pfx r).
+      { pose proof (covers_fam _ _ Hcov) as Hf'.
+        pose proof Hcov as C1. pose proof Hcr as C2.
+        rewrite covers_covered_pfx in C1, C2 by (apply Hwh; assumption).
+        unfold covered_pfx, first_bits in C1, C2. rewrite !andb_true_iff, !N.leb_le, !N.eqb_eq in C1, C2.
+        destruct C1 as [_ E1]. 
+        destruct (wf_prefix_parts _ (Hwh o Hoh)) as (_ & _ & No). destruct (wf_prefix_parts _ (Hwh r Hr)) as (_ & _ & Nr).
+        unfold host_bits in No, Nr.
+        destruct (r_pfx o) as [fo ao lo] eqn:Eqo, (r_pfx r) as [fr' ar lr'] eqn:Eqr. cbn [p_fam p_addr p_len] in *.
+        subst fr' lr'. f_equal. rewrite No, Nr, E1. reflexivity. }
+      pose proof (Hex o Hoh) as Xo. pose proof (Hex r Hr) as Xr.
+      unfold r_max, eff_max, r_pfx, r_asn in *.
+      destruct (r_pl o) as [ao po mo], (r_pl r) as [ar pr mr]. cbn [pl_asn pl_pfx pl_max] in *.
+      destruct mo as [mo|]; [|contradiction]. destruct mr as [mr|]; [|contradiction]. subst.
+      unfold payload_eqb in Hneq. cbn [pl_asn pl_pfx pl_max optN_eqb] in Hneq.
+      rewrite !N.eqb_refl in Hneq. replace (prefix_eqb pr pr) with true in Hneq by (symmetry; apply prefix_eqb_eq; reflexivity).
+      discriminate. }
+    exact (IHn _ Hlt o eq_refl Hoh Hmo). }
+  (* 2. start from any matching ROA *)
+  assert (HM : exists r, In r hr /\ matched (vrp_of r) (route_of a) = true).
+  { unfold rov in Hval. destruct (existsb (fun v => matched v (route_of a)) (map vrp_of hr)) eqn:Ex;
+      [|destruct (existsb (fun v => covered v (route_of a)) (map vrp_of hr)); discriminate].
+    rewrite existsb_map in Ex. apply existsb_exists in Ex. destruct Ex as (r & Hr & Hm). exists r; auto. }
+  destruct HM as (r0 & Hr0 & Hm0).
+  destruct (Chain _ r0 eq_refl Hr0 Hm0) as (r & e & Hr & Hm & He & Esub & Hnred & E).
+  (* its state is Seen *)
+  assert (Hn : e_state e <> RoaNotHeld) by (pose proof (categorise_spec _ _ _ _ _ E) as X; tauto).
+  assert (Hau : In a (e_authorizes e)) by (apply (authorizes_exact _ _ _ _ _ _ _ _ Han Hsc Hst Hwf He Esub Hn); auto).
+  pose proof (categorise_spec _ _ _ _ _ E) as (_ & _ & _ & Has0 & _ & _ & Hnil & Hnh & Hni & Hrs).
+  assert (Hnz : r_asn r <> 0).
+  { intros Ez. unfold matched, vrp_of in Hm. cbn [vrp_asn] in Hm. rewrite Ez, andb_false_r in Hm. discriminate. }
+  assert (Est : e_state e = RoaSeen).
+  { destruct (e_state e) eqn:Es; try reflexivity; try (exfalso; cbn in Hrs; discriminate); try congruence.
+    - exfalso. rewrite Hnil in Hau by (left; reflexivity). destruct Hau.
+    - exfalso. rewrite Hnil in Hau by (right; reflexivity). destruct Hau.
+    - exfalso. assert (X : matched (vrp_of r) (route_of a) = false).
+      { apply Htp. cbn [s_too_permissive]. apply in_map_iff.
+        exists (r, replace_with es e). split; [reflexivity|]. apply in_flat_map. exists e. split; [assumption|].
+        rewrite Es, Esub. left; reflexivity. }
+      congruence.
+    - exfalso. apply Hnz. apply Has0. left; reflexivity.
+    - exfalso. apply Hnz. apply Has0. right; reflexivity. }
+  assert (Hkeep : In r (roas_in (fun s => st_is RoaSeen s || st_is RoaAs0 s || st_is RoaNoInfo s) es)).
+  { apply In_roas_in. exists e. rewrite Est. auto. }
+  split; [exists r; split; assumption|].
+  (* 3. it survives the updates *)
+  unfold rov. replace (existsb (fun v => matched v (route_of a)) (map vrp_of_payload (config_after hr _))) with true; [reflexivity|].
+  symmetry. rewrite existsb_map. apply existsb_exists. exists (r_pl r). split; [|exact Hm].
+  unfold config_after, updates_of_suggestion. cbn [s_stale s_too_permissive s_as0_redundant s_redundant s_not_found s_invalid_asn s_invalid_length].
+  apply in_or_app. left. apply filter_In. split; [apply in_map; assumption|].
+  apply negb_true_iff. apply existsb_false. intros pl Hpl.
+  destruct (payload_norm_eqb (r_pl r) pl) eqn:Enorm; [exfalso | reflexivity].
+  (* a removed ROA with the same normalised payload would have the same state *)
+  assert (Removed : exists r2 e2, r_pl r2 = pl /\ In e2 es /\ e_subj e2 = SRoa r2 /\ e_state e2 <> RoaSeen /\ e_state e2 <> RoaNotHeld).
+  { rewrite !in_app_iff in Hpl. destruct Hpl as [Hpl|[Hpl|[Hpl|Hpl]]].
+    - apply in_map_iff in Hpl. destruct Hpl as (r2 & <- & Hr2). apply In_roas_in in Hr2.
+      destruct Hr2 as (e2 & He2 & S2 & Sub2). apply st_is_eq in S2. exists r2, e2. repeat split; auto; rewrite <- S2; discriminate.
+    - apply in_map_iff in Hpl. destruct Hpl as ([r2 new] & <- & Hr2). apply in_flat_map in Hr2.
+      destruct Hr2 as (e2 & He2 & Hx). destruct (st_is RoaTooPermissive (e_state e2)) eqn:S2; [|destruct Hx].
+      apply st_is_eq in S2. destruct (e_subj e2) as [r2'|] eqn:Sub2; [|destruct Hx]. destruct Hx as [Hx|[]].
+      inversion Hx; subst r2'. exists r2, e2. cbn [fst]. repeat split; auto; rewrite <- S2; discriminate.
+    - apply in_map_iff in Hpl. destruct Hpl as (r2 & <- & Hr2). apply In_roas_in in Hr2.
+      destruct Hr2 as (e2 & He2 & S2 & Sub2). apply st_is_eq in S2. exists r2, e2. repeat split; auto; rewrite <- S2; discriminate.
+    - apply in_map_iff in Hpl. destruct Hpl as (r2 & <- & Hr2). apply In_roas_in in Hr2.
+      destruct Hr2 as (e2 & He2 & S2 & Sub2). apply st_is_eq in S2. exists r2, e2. repeat split; auto; rewrite <- S2; discriminate. }
+  destruct Removed as (r2 & e2 & <- & He2 & Sub2 & Hns & Hnn).
+  pose proof (analyse_roa_entry _ _ _ _ _ _ _ _ Han He2 Sub2 Hnn) as X. cbv zeta in X. destruct X as [Hr2 E2].
+  destruct (is_fam_In _ _ _ Hr2) as [Hr2h _]. fold hr in Hr2h, E2.
+  assert (Epl : r_pl r = r_pl r2).
+  { pose proof (Hex r Hr) as X1. pose proof (Hex r2 Hr2h) as X2.
+    unfold payload_norm_eqb, eff_max in Enorm. rewrite !andb_true_iff, !N.eqb_eq in Enorm. destruct Enorm as [[E1 E2'] E3].
+    apply prefix_eqb_eq in E2'.
+    destruct (r_pl r) as [a1 p1 m1], (r_pl r2) as [a2 p2 m2]. cbn [pl_asn pl_pfx pl_max] in *.
+    destruct m1; [|contradiction]. destruct m2; [|contradiction]. congruence. }
+  assert (Epf : r_pfx r2 = r_pfx r) by (unfold r_pfx; rewrite Epl; reflexivity).
+  rewrite Epf in E2.
+  pose proof (categorise_state_payload _ _ _ _ _ _ _ Epl E E2) as Eqs. congruence.
+Qed.
+
+Example suggest_preserves_validity_restricted_nonvacuous :
+  let roas := [mkRoa (mkPl 64496 (mkP V4 167772160 24) (Some 24)) 0; mkRoa (mkPl 64497 (mkP V4 167772160 16) (Some 16)) 0] in
+  let store := [ex_a1; mkAnn 64497 (mkP V4 167772160 16)] in
+  exists s, suggest true roas ex_held None (Some store) = Some s
+            /\ explicit_max (roas_held roas ex_held None)
+            /\ rov (map vrp_of (roas_held roas ex_held None)) (route_of ex_a1) = Valid
+            /\ s_too_permissive s = [] /\ length (s_keep s) = 2%nat.
+Proof.
+  eexists. split; [vm_compute; reflexivity|]. split; [|split; [reflexivity | split; reflexivity]].
+  intros r Hr. vm_compute in Hr. destruct Hr as [<-|[<-|[]]]; discriminate.
+Qed.
